@@ -5,6 +5,7 @@ package main
 // violations in a fresh process, writes the evidence file.
 
 import (
+	"runtime/debug"
 	"bufio"
 	"crypto/sha256"
 	"encoding/hex"
@@ -206,6 +207,17 @@ func cmdWorker(args []string) {
 					if len(msg) > 2000 {
 						msg = msg[:2000]
 					}
+					// where in the harness (the frames of this package), for the report
+					var fr []string
+					for _, l := range strings.Split(string(debug.Stack()), "\n") {
+						if strings.Contains(l, "/verif/sim/") || strings.Contains(l, "/sim/") && strings.Contains(l, ".go:") {
+							fr = append(fr, strings.TrimSpace(l))
+						}
+						if len(fr) >= 6 {
+							break
+						}
+					}
+					msg += " @ " + strings.Join(fr, " < ")
 				}
 			}()
 			g, _ = oneRun(*seed, *prop, run, *thorough, false)
